@@ -148,11 +148,13 @@ class LiteDRAMAXI2NativeW(Module):
             rmw_cmd_done  = Signal()
             rmw_data_done = Signal()
 
-            # Grant write when write buffer is empty.
-            self.comb += self.rmw_wgrant.eq(~w_buffer_queue & (w_buffer_level == 0))
+            # Grant write when write buffer is empty and the beat's address is known: all the previous
+            # beats have then been sent with their command and aw is at the beat presented on axi.w.
+            self.comb += self.rmw_wgrant.eq(~w_buffer_queue & (w_buffer_level == 0) & (w_buffer.level == 0) & aw.valid)
 
-            # Prevent new write on Read-Modify-Write request.
-            self.comb += If(self.rmw_request,
+            # Prevent new write during the Read-Modify-Write access (buffered beats are sent first).
+            rmw_active = Signal()
+            self.comb += If(rmw_active,
                 can_write.eq(0)
             )
 
@@ -179,6 +181,7 @@ class LiteDRAMAXI2NativeW(Module):
             )
             rmw_fsm.act("READ",
                 self.rmw_request.eq(1),
+                rmw_active.eq(1),
                 # Issue Read Cmd.
                 port.cmd.valid.eq(1),
                 port.cmd.last.eq(aw.last),
@@ -190,6 +193,7 @@ class LiteDRAMAXI2NativeW(Module):
             )
             rmw_fsm.act("MODIFY",
                 self.rmw_request.eq(1),
+                rmw_active.eq(1),
                 # Generate mask.
                 *[rmw_mask[8*i:8*(i+1)].eq(Replicate(axi.w.strb[i], 8)) for i in range(port.data_width//8)],
                 # Receive Read Data and modify it.
@@ -202,6 +206,7 @@ class LiteDRAMAXI2NativeW(Module):
             )
             rmw_fsm.act("WRITE",
                 self.rmw_request.eq(1),
+                rmw_active.eq(1),
                 # Isssue Write Cmd.
                 port.cmd.valid.eq(~rmw_cmd_done),
                 port.cmd.last.eq(aw.last),
